@@ -38,7 +38,7 @@ pub open spec fn extends(t0: Seq<Ev>, t1: Seq<Ev>) -> bool { t0.len() <= t1.len(
 pub open spec fn since(t0: Seq<Ev>, t1: Seq<Ev>) -> Seq<Ev> { t1.subrange(t0.len() as int, t1.len() as int) }
 
 // ---------------------------------------------------------------- stand-in types
-pub struct Repository { pub _opaque: () }
+#[verifier::external_body] pub struct Repository { _o: () }
 pub enum GitAiError { Generic(String) }
 pub struct Output { pub stdout: Vec<u8>, pub stderr: Vec<u8> }
 /// `repository.global_args_for_exec()` (`-C <dir> --no-pager ..`): uninterpreted, a function of the repository
